@@ -179,9 +179,12 @@ def run(ctx):
     quick = ctx.tier == 'quick'
     reqs, metas = [], []
     nmain = 64 if quick else 1600
-    for k in range(nmain + (8 if quick else 64)):
-        two_faults = k >= nmain        # the tail of every run: the two-fault pattern on plain tracks of both encodings
-        mfm = r.chance(1, 2) if not two_faults else k % 2 == 0
+    # the tail of every run: the damage kinds that only a specific decoder weakness lets through (two correlated faults, a flip that leaves
+    # one CRC byte intact, a flipped mark bit), on plain tracks (no deleted records) of both encodings, several instances each
+    tail = [(15, True), (15, False), (13, True), (13, False), (14, True), (14, False)] * (4 if quick else 24)
+    for k in range(nmain + len(tail)):
+        two_faults = k >= nmain
+        mfm = r.chance(1, 2) if not two_faults else tail[k - nmain][1]
         if k % 16 in (13, 14, 15, 10, 11):
             mfm = (k // 16) % 2 == 0        # the CRC-specific and the two-fault damage on both encodings in every run
         nsec = r.choice([10, 10, 4]) if not mfm else r.choice([18, 16, 5])
@@ -193,7 +196,7 @@ def run(ctx):
         cells = flux.mfm_track(cyl, head, secs, lay) if mfm else flux.fm_track(cyl, head, secs, lay)
         spans = field_spans(lay, mfm, nsec)
         if two_faults:
-            bad, hit, touched, desc = damage(r, cells, spans, lay.order, kind=15)
+            bad, hit, touched, desc = damage(r, cells, spans, lay.order, kind=tail[k - nmain][0])
         elif r.chance(1, 12):
             bad, hit, touched, desc = [r.below(2) for _ in range(r.choice([0, 7, 64, 3000, 50000]))], set(), set(range(nsec)), 'random-stream'
         elif r.chance(1, 12):
